@@ -154,14 +154,14 @@ theorem hset_args_parse (fvs : List (Bytes × Bytes)) (hv : ∀ p ∈ fvs, adapt
       = some (fvs.foldl (fun (m : KMap Scalar) p => m.put p.1 (.str p.2)) []) :=
   hsetEntries_pairs fvs hv
 
-/-- **HSET on an existing hash stores the merge** of the old map and the new entries. The reply is what
-    the model answers: the TOTAL number of fields after the merge (class `hset-reply-counts-all-fields`),
-    not the number of fields added. -/
+/-- **HSET on an existing hash stores the merge** of the old map and the new entries, and replies the number
+    of (distinct) fields the command names — each of them is created or updated — whatever the hash held
+    before. -/
 theorem hset_existing (c : Ctx) (s : State) (k : Bytes) (args : List Bytes) (h entries : KMap Scalar) (ex : Option Int)
     (hm : c.cfg.maxMemory = 0)
     (hl : s.lookup c.db k = some ⟨.hash h, ex⟩) (hlive : (⟨.hash h, ex⟩ : Entry).expired c.now = false)
     (hlen : 2 ≤ args.length) (heven : args.length % 2 = 0) (he : hsetEntries args = some entries) :
-    ∃ s', (handleHSet c (b "hset" :: k :: args)).run c s = (s', .done (.ok (intReply (hsetMerge h entries).length))) ∧
+    ∃ s', (handleHSet c (b "hset" :: k :: args)).run c s = (s', .done (.ok (intReply entries.length))) ∧
       s'.lookup c.db k = some ⟨.hash (hsetMerge h entries), ex⟩ ∧
       ∀ k2, k ≠ k2 → s'.lookup c.db k2 = s.lookup c.db k2 := by
   refine ⟨(setValues c s [(k, .hash (hsetMerge h entries))]).1, ?_, setValues_over c s k _ _ ex hm hl,
@@ -177,10 +177,9 @@ theorem hset_contents (h entries : KMap Scalar) (g : Bytes) :
       | some v => some v
       | none => h.get g := hsetMerge_get h entries g
 
-/-- **the HSET reply, exactly** (hash with unique fields): the number of entries of the command PLUS the
-    number of old fields the command does not mention — i.e. the size of the hash after the command, which
-    equals the number of fields added only when the old hash was empty -/
-theorem hset_reply_exact (h entries : KMap Scalar) (hn : KMap.NoDup h) :
+/-- **the size of the hash after HSET** (hash with unique fields): the number of entries of the command plus
+    the number of old fields the command does not mention (the reply is the former alone: `hset_reply`) -/
+theorem hset_size_exact (h entries : KMap Scalar) (hn : KMap.NoDup h) :
     (hsetMerge h entries).length = entries.length + (h.filter fun fv => (entries.get fv.1).isNone).length :=
   hsetMerge_length h entries hn
 
@@ -190,13 +189,13 @@ theorem hset_existing_single (c : Ctx) (s : State) (k f v : Bytes) (h : KMap Sca
     (hm : c.cfg.maxMemory = 0)
     (hl : s.lookup c.db k = some ⟨.hash h, ex⟩) (hlive : (⟨.hash h, ex⟩ : Entry).expired c.now = false)
     (hv : adaptType v = .str v) :
-    ∃ s' h', (handleHSet c [b "hset", k, f, v]).run c s = (s', .done (.ok (intReply h'.length))) ∧
+    ∃ s' h', (handleHSet c [b "hset", k, f, v]).run c s = (s', .done (.ok (intReply 1))) ∧
       s'.lookup c.db k = some ⟨.hash h', ex⟩ ∧
       (∀ g, h'.get g = if f = g then some (.str v) else h.get g) ∧
       ∀ k2, k ≠ k2 → s'.lookup c.db k2 = s.lookup c.db k2 := by
   have he : hsetEntries [f, v] = some [(f, .str v)] := hsetEntries_single f v _ (by rw [hv]; rfl)
   obtain ⟨s', h1, h2, h3⟩ := hset_existing c s k [f, v] h _ ex hm hl hlive (by simp) (by simp) he
-  refine ⟨s', hsetMerge h [(f, .str v)], h1, h2, ?_, h3⟩
+  refine ⟨s', hsetMerge h [(f, .str v)], by simpa using h1, h2, ?_, h3⟩
   intro g
   rw [hsetMerge_get]
   by_cases hfg : f = g <;> simp [KMap.get, hfg]
@@ -429,13 +428,34 @@ theorem hincrby_on_float_field (c : Ctx) (s : State) (k f incr : Bytes) (h : KMa
 
 /-! ### HRANDFIELD -/
 
-/-- **a count of at least the number of fields returns all of them** (map order) -/
+/-- **a stored hash without fields** (what HDEL of the last field leaves behind) **answers the empty array
+    for every count** — positive, zero or negative, with or without WITHVALUES, or no count at all — and
+    the state is untouched: an empty hash reads like an absent key -/
+theorem hrandfield_empty_hash (c : Ctx) (s : State) (k cnt : Bytes) (ex : Option Int) (n : Int)
+    (hl : s.lookup c.db k = some ⟨.hash [], ex⟩) (hlive : (⟨.hash [], ex⟩ : Entry).expired c.now = false)
+    (hc : parseInt64 cnt = some n) :
+    (handleHRandField c [b "hrandfield", k, cnt]).run c s = (s, .done (.ok (b "*0\r\n"))) ∧
+    (handleHRandField c [b "hrandfield", k, cnt, b "withvalues"]).run c s = (s, .done (.ok (b "*0\r\n"))) ∧
+    (handleHRandField c [b "hrandfield", k]).run c s = (s, .done (.ok (b "*0\r\n"))) := by
+  refine ⟨?_, ?_, ?_⟩
+  · cases hz : decide (n = 0) <;>
+      simp_all [handleHRandField, keysExist_single, getValues_live _ _ _ _ hl hlive, asHash?]
+  · cases hz : decide (n = 0) <;>
+      simp_all [handleHRandField, keysExist_single, getValues_live _ _ _ _ hl hlive, asHash?, withvalues_facts]
+  · simp [handleHRandField, keysExist_single, hl, getValues_live _ _ _ _ hl hlive, asHash?]
+
+/-- **a count of at least the number of fields returns all of them** (map order; a hash without fields is
+    `hrandfield_empty_hash`) -/
 theorem hrandfield_all (c : Ctx) (s : State) (k cnt : Bytes) (h : KMap Scalar) (ex : Option Int) (n : Int)
     (hl : s.lookup c.db k = some ⟨.hash h, ex⟩) (hlive : (⟨.hash h, ex⟩ : Entry).expired c.now = false)
-    (hc : parseInt64 cnt = some n) (hn : (h.length : Int) ≤ n) (hn0 : n ≠ 0) :
+    (hc : parseInt64 cnt = some n) (hn : (h.length : Int) ≤ n) (hne : h ≠ []) :
     (handleHRandField c [b "hrandfield", k, cnt]).run c s
       = (s, .done (.okPerm (arrHdr h.length) (h.map fun fv => bulkStr fv.1))) := by
-  simp [handleHRandField, keysExist_single, hl, hc, getValues_live _ _ _ _ hl hlive, asHash?, hn]
+  have hn0 : n ≠ 0 := by
+    intro e; subst e; cases h with
+    | nil => exact hne rfl
+    | cons x r => simp at hn; omega
+  simp [handleHRandField, keysExist_single, hl, hc, getValues_live _ _ _ _ hl hlive, asHash?, hn, hne]
 
 /-- **a positive count below the number of fields selects that many distinct fields** -/
 theorem hrandfield_positive (c : Ctx) (s : State) (k cnt : Bytes) (h : KMap Scalar) (ex : Option Int) (n : Int)
@@ -448,9 +468,9 @@ theorem hrandfield_positive (c : Ctx) (s : State) (k cnt : Bytes) (h : KMap Scal
   have h2 : h ≠ [] := by intro e; subst e; simp at hn; omega
   simp [handleHRandField, keysExist_single, hl, hc, getValues_live _ _ _ _ hl hlive, asHash?, h1, h2, hn0]
 
-/-- **a negative count selects |count| fields, repeats allowed** (non-empty hash; on an empty hash the
-    model panics — witness below) -/
-theorem hrandfield_negative_partial (c : Ctx) (s : State) (k cnt : Bytes) (h : KMap Scalar) (ex : Option Int) (n : Int)
+/-- **a negative count selects |count| fields, repeats allowed** (a hash with at least one field to pick from;
+    the hash without fields answers the empty array: `hrandfield_empty_hash`) -/
+theorem hrandfield_negative (c : Ctx) (s : State) (k cnt : Bytes) (h : KMap Scalar) (ex : Option Int) (n : Int)
     (hl : s.lookup c.db k = some ⟨.hash h, ex⟩) (hlive : (⟨.hash h, ex⟩ : Entry).expired c.now = false)
     (hc : parseInt64 cnt = some n) (hn0 : n < 0) (hne : h ≠ []) :
     (handleHRandField c [b "hrandfield", k, cnt]).run c s
@@ -481,6 +501,37 @@ theorem hrandfield_withvalues (c : Ctx) (s : State) (k cnt : Bytes) (h : KMap Sc
   have h1 : ¬ ((h.length : Int) ≤ n) := by omega
   have h2 : h ≠ [] := by intro e; subst e; simp at hn; omega
   simp [handleHRandField, keysExist_single, hl, hc, getValues_live _ _ _ _ hl hlive, asHash?, h1, h2, hn0, withvalues_facts]
+
+/-- the handler program has no `panic` leaf -/
+def NoPanic {α : Type} : Prog α → Prop
+  | .ret _ => True
+  | .call _ k => ∀ r, NoPanic (k r)
+  | .panic _ => False
+  | .unmod _ => True
+
+/-- a program without a `panic` leaf never ends in a handler panic, whatever the state -/
+theorem NoPanic.run {α : Type} (c : Ctx) (p : Prog α) (hp : NoPanic p) (s : State) (w : String)
+    (h : (p.run c s).2 = .panic w) : w = "primitive" := by
+  induction p generalizing s with
+  | ret a => simp [Prog.run] at h
+  | call q k ih =>
+    simp only [Prog.run] at h
+    cases hq : q.exec c s with
+    | none => rw [hq] at h; simp at h; exact h.symm
+    | some sr => rw [hq] at h; exact ih sr.2 (hp sr.2) sr.1 h
+  | panic w' => exact hp.elim
+  | unmod w' => simp [Prog.run] at h
+
+/-- **HRANDFIELD cannot panic**: on every command line, the handler has no panicking path left (the only one,
+    `rand.Intn(0)` on a hash without fields, now answers the empty array) -/
+theorem hrandfield_never_panics (c : Ctx) (cmd : List Bytes) : NoPanic (handleHRandField c cmd) := by
+  unfold handleHRandField
+  repeat' (first
+    | exact trivial
+    | intro _
+    | split
+    | (dsimp only)
+    | (simp only [NoPanic]))
 
 /-! ### reading a key of another type fails without changing it -/
 
@@ -694,9 +745,9 @@ def HOp.apply (h : KMap Scalar) : HOp → KMap Scalar
   | .hdel f fs => (hdelFold h (f :: fs)).1
   | .hincrby f _ d => h.put f (.int (curInt h f + d))
 
-/-- the reply the model gives (HSET: size of the merged map — `hset-reply-counts-all-fields`) -/
+/-- the reply the model gives (HSET: the number of fields the command names) -/
 def HOp.reply (h : KMap Scalar) : HOp → Bytes
-  | .hset _ entries => intReply (hsetMerge h entries).length
+  | .hset _ entries => intReply entries.length
   | .hsetnx _ entries => intReply (entries.filter fun fv => (h.get fv.1).isNone).length
   | .hdel f fs => intReply (hdelFold h (f :: fs)).2
   | .hincrby f _ d => intReply (curInt h f + d)
@@ -784,11 +835,15 @@ theorem reads_after_sequence (c : Ctx) (k f : Bytes) (fs : List Bytes) (ops : Li
 
 /-! ### where the full statement fails (model witnesses; each is a class of Known.lean) -/
 
-/-- `hset-reply-counts-all-fields`: HSET adding ONE new field to a one-field hash replies 2 -/
-theorem hset_reply_counts_all_fields_witness :
+/-- repaired upstream (was the witness of class `hset-reply-counts-all-fields`, where the reply was 2, the size
+    of the hash afterwards): HSET adding ONE new field to a one-field hash replies 1; HSET updating that field
+    and adding two replies 3 (every field named is created or updated) -/
+theorem hset_reply_replay :
     let c : Ctx := { db := 0, now := 1000 }
     let s : State := { dbs := [(0, ⟨[(b "k", ⟨.hash [(b "f", .str (b "v"))], none⟩)], []⟩)], mem := 0 }
-    ((handleHSet c [b "hset", b "k", b "g", b "w"]).run c s).2 = .done (.ok (b ":2\r\n")) := by decide
+    ((handleHSet c [b "hset", b "k", b "g", b "w"]).run c s).2 = .done (.ok (b ":1\r\n")) ∧
+    ((handleHSet c [b "hset", b "k", b "f", b "x", b "g", b "w", b "g", b "y", b "e", b "z"]).run c s).2
+      = .done (.ok (b ":3\r\n")) := by decide
 
 /-- `hash-numeric-text-rewritten`: HSET k f 007; HGET k f answers the integer 7, not the bytes `007` -/
 theorem numeric_text_rewritten_witness :
@@ -818,11 +873,15 @@ theorem hincrby_float_typed_field_witness :
     let s : State := { dbs := [(0, ⟨[(b "k", ⟨.hash [(b "x", .flt (.fin ⟨15, -1⟩))], none⟩)], []⟩)], mem := 0 }
     ((handleHIncrBy c [b "hincrby", b "k", b "x", b "1"]).run c s).2 = .done (.ok (b "+2.5\r\n")) := by decide
 
-/-- `hrandfield-empty-hash-panic`: a negative count on an empty hash panics -/
-theorem hrandfield_empty_hash_panic_witness :
+/-- repaired upstream (was the witness of class `hrandfield-empty-hash-panic`, where the handler ran into
+    `rand.Intn(0)`): HSET k f1 a f2 b; HDEL k f1 f1 f2 leaves a hash without fields, on which
+    HRANDFIELD k -3 answers the empty array -/
+theorem hrandfield_empty_hash_replay :
     let c : Ctx := { db := 0, now := 1000 }
-    let s : State := { dbs := [(0, ⟨[(b "k", ⟨.hash [], none⟩)], []⟩)], mem := 0 }
-    ((handleHRandField c [b "hrandfield", b "k", b "-1"]).run c s).2 = .panic "rand.Intn(0)" := by decide
+    let s1 := ((handleHSet c [b "hset", b "k", b "f1", b "a", b "f2", b "b"]).run c { dbs := [], mem := 0 }).1
+    let s2 := ((handleHDel c [b "hdel", b "k", b "f1", b "f1", b "f2"]).run c s1).1
+    s2.lookup 0 (b "k") = some ⟨.hash [], none⟩ ∧
+    (handleHRandField c [b "hrandfield", b "k", b "-3"]).run c s2 = (s2, .done (.ok (b "*0\r\n"))) := by decide
 
 /-- `expired-key-still-exists`: HLEN on a hash whose deadline has passed answers a type error instead of 0 -/
 theorem hlen_on_expired_key_witness :
@@ -890,8 +949,11 @@ example := hincrby_on_float_field c0 s0 (b "k") (b "x") (b "1") h0 (some 5000) 1
   (by decide) (by decide) (by decide) (by decide) (by decide) (by decide) (by decide)
 
 example := hrandfield_all c0 s0 (b "k") (b "3") h0 (some 5000) 3 (by decide) (by decide) (by decide) (by decide) (by decide)
+example := hrandfield_empty_hash c0 { dbs := [(0, ⟨[(b "k", ⟨.hash [], none⟩)], []⟩)], mem := 0 } (b "k") (b "-3") none (-3)
+  (by decide) (by decide) (by decide)
+example := hrandfield_never_panics c0 [b "hrandfield", b "k", b "-3"]
 example := hrandfield_positive c0 s0 (b "k") (b "2") h0 (some 5000) 2 (by decide) (by decide) (by decide) (by decide) (by decide)
-example := hrandfield_negative_partial c0 s0 (b "k") (b "-4") h0 (some 5000) (-4) (by decide) (by decide) (by decide) (by decide) (by decide)
+example := hrandfield_negative c0 s0 (b "k") (b "-4") h0 (some 5000) (-4) (by decide) (by decide) (by decide) (by decide) (by decide)
 example := hrandfield_default c0 s0 (b "k") h0 (some 5000) (by decide) (by decide) (by decide)
 example := hrandfield_withvalues c0 s0 (b "k") (b "2") h0 (some 5000) 2 (by decide) (by decide) (by decide) (by decide) (by decide)
 
@@ -900,7 +962,7 @@ example := hdel_wrongtype c0 s0 (b "str") (b "f") [] (.str (b "abc")) none (by d
 example := hincrby_wrongtype c0 s0 (b "str") (b "f") (b "1") (.str (b "abc")) none 1 (by decide) (by decide) (by decide) (by decide)
 example := hset_wrongtype_replaces c0 s0 (b "str") [b "f", b "v"] [(b "f", .str (b "v"))] (.str (b "abc")) none
   (by decide) (by decide) (by decide) (by decide) (by decide) (by decide) (by decide)
-example := hset_reply_exact h0 [(b "g", .str (b "w"))] (by decide)
+example := hset_size_exact h0 [(b "g", .str (b "w"))] (by decide)
 example := hsetnx_absent_key c0 s0 (b "nokey") (b "f") (b "v") (by decide) (by decide) (by decide)
 example := fields_stay_unique h0 [(b "g", .str (b "w"))] [b "g", b "w"] [b "f"] (b "f") (.int 1) (by decide) (by decide)
 
@@ -930,33 +992,48 @@ theorem preAll_ops0 : PreAll ops0 h0 :=
     ⟨by decide, by decide, by decide⟩, trivial⟩
 example := sequence_refines c0 (b "k") ops0 s0 h0 (some 5000) (by decide) (by decide) (by decide) preAll_ops0
 example := reads_after_sequence c0 (b "k") (b "g") [b "f"] ops0 s0 h0 (some 5000) (by decide) (by decide) (by decide) preAll_ops0
-/-- what that reference run answers: HSET 4 (the total, not 1), HINCRBY -2, HDEL 1, HSETNX 0 -/
+/-- what that reference run answers: HSET 1 (the one field named), HINCRBY -2, HDEL 1, HSETNX 0 -/
 example : refOps ops0 h0 = ([(b "g", .str (b "w")), (b "n", .int (-2)), (b "x", .flt (.fin ⟨15, -1⟩))],
-    [b ":4\r\n", b ":-2\r\n", b ":1\r\n", b ":0\r\n"]) := by decide
+    [b ":1\r\n", b ":-2\r\n", b ":1\r\n", b ":0\r\n"]) := by decide
 
-/-! ### the HSET reply, under the hypothesis that excludes `hset-reply-counts-all-fields` -/
+/-! ### the HSET reply -/
 
-/-- **HSET replies the number of fields it names** when the command names every field the hash already
-    holds (then "total fields after the merge" and "distinct fields set" coincide — one of the two replies
-    the reference accepts). Partial: with an old field the command does not name, the reply over-counts
-    (`hset_reply_counts_all_fields_witness`). -/
-theorem hset_reply_partial (c : Ctx) (s : State) (k : Bytes) (args : List Bytes) (h entries : KMap Scalar) (ex : Option Int)
+/-- **HSET replies the number of fields it creates or updates, on every input**: for any argument list that
+    parses to the entries map `entries` (its fields are pairwise distinct — a field named twice counts once,
+    the last value wins) and any live hash `h` at the key, the reply is `entries.length`, every field counted
+    reads afterwards as the value given, and every other field reads as before. This is the count the API
+    documents ("the number of fields that were updated/created"), one of the two replies the reference
+    accepts; what the hash held before does not enter the count. -/
+theorem hset_reply (c : Ctx) (s : State) (k : Bytes) (args : List Bytes) (h entries : KMap Scalar) (ex : Option Int)
     (hm : c.cfg.maxMemory = 0)
     (hl : s.lookup c.db k = some ⟨.hash h, ex⟩) (hlive : (⟨.hash h, ex⟩ : Entry).expired c.now = false)
-    (hlen : 2 ≤ args.length) (heven : args.length % 2 = 0) (he : hsetEntries args = some entries)
-    (hn : KMap.NoDup h) (hall : ∀ fv ∈ h, (entries.get fv.1).isSome = true) :
-    ((handleHSet c (b "hset" :: k :: args)).run c s).2 = .done (.ok (intReply entries.length)) := by
-  obtain ⟨s', h1, _, _⟩ := hset_existing c s k args h entries ex hm hl hlive hlen heven he
-  rw [h1, hset_reply_exact h entries hn]
-  have : (h.filter fun fv => (entries.get fv.1).isNone) = [] := by
-    rw [List.filter_eq_nil_iff]
-    intro fv hfv
-    have := hall fv hfv
-    cases hg : entries.get fv.1 <;> simp_all
-  rw [this]; simp
+    (hlen : 2 ≤ args.length) (heven : args.length % 2 = 0) (he : hsetEntries args = some entries) :
+    ∃ s' h', (handleHSet c (b "hset" :: k :: args)).run c s = (s', .done (.ok (intReply entries.length))) ∧
+      s'.lookup c.db k = some ⟨.hash h', ex⟩ ∧ KMap.NoDup entries ∧
+      (∀ g v, entries.get g = some v → h'.get g = some v) ∧
+      (∀ g, entries.get g = none → h'.get g = h.get g) := by
+  obtain ⟨s', h1, h2, _⟩ := hset_existing c s k args h entries ex hm hl hlive hlen heven he
+  refine ⟨s', hsetMerge h entries, h1, h2, hsetEntries_NoDup args entries he, ?_, ?_⟩
+  · intro g v hg; rw [hsetMerge_get, hg]
+  · intro g hg; rw [hsetMerge_get, hg]
 
-example := hset_reply_partial c0 s0 (b "k") [b "f", b "1", b "n", b "2", b "x", b "3", b "g", b "4"] h0
-  [(b "f", .int 1), (b "n", .int 2), (b "x", .int 3), (b "g", .int 4)] (some 5000)
-  (by decide) (by decide) (by decide) (by decide) (by decide) (by decide) (by decide) (by decide)
+/-- the same reply whether or not the key existed: on an absent key the count is again `entries.length` -/
+theorem hset_reply_any_key (c : Ctx) (s : State) (k : Bytes) (args : List Bytes) (h entries : KMap Scalar) (ex : Option Int)
+    (hm : c.cfg.maxMemory = 0)
+    (hl : s.lookup c.db k = none ∨
+      (s.lookup c.db k = some ⟨.hash h, ex⟩ ∧ (⟨.hash h, ex⟩ : Entry).expired c.now = false))
+    (hlen : 2 ≤ args.length) (heven : args.length % 2 = 0) (he : hsetEntries args = some entries) :
+    ((handleHSet c (b "hset" :: k :: args)).run c s).2 = .done (.ok (intReply entries.length)) := by
+  rcases hl with hl | ⟨hl, hlive⟩
+  · obtain ⟨s', h1, _, _⟩ := hset_absent c s k args entries hm hl hlen heven he
+    rw [h1]
+  · obtain ⟨s', h1, _, _⟩ := hset_existing c s k args h entries ex hm hl hlive hlen heven he
+    rw [h1]
+
+example := hset_reply c0 s0 (b "k") [b "f", b "1", b "g", b "4", b "g", b "5"] h0
+  [(b "f", .int 1), (b "g", .int 5)] (some 5000)
+  (by decide) (by decide) (by decide) (by decide) (by decide) (by decide)
+example := hset_reply_any_key c0 s0 (b "nokey") [b "f", b "1"] [] [(b "f", .int 1)] none
+  (by decide) (Or.inl (by decide)) (by decide) (by decide) (by decide)
 
 end Sugar.Props.C14
